@@ -2,6 +2,7 @@ package props
 
 import (
 	"fmt"
+	"go/constant"
 	"go/token"
 	"go/types"
 	"sort"
@@ -23,6 +24,7 @@ func init() {
 			"O5 after a successful store write Bloom Put/PutMany add the multihash of every written block to the live filter; " +
 			"O6 the key enumeration goroutine records an error before every exit other than the end of the result set, closes the key channel before signalling completion, and the error function waits for completion before reading the error; " +
 			"O8 the cache layers' PutMany report success only after the whole batch was consumed; the batch's keys are sorted and de-duplicated before they are locked; a query entry carrying an error is recorded before the enumeration goes on; the Bloom filter pointer that receives AddTS is loaded after the store write returned; " +
+			"O9 where a slice is compacted in place (elements stored at a running index inside a loop, the slice re-sliced to a bound derived from that index after the loop), the bound keeps every element written: bound == index+1 when the index is advanced before the write, bound == index when it is advanced after (no obligation when no such loop exists); " +
 			"O7 every type that implements Blockstore by delegating AllKeysChan to a wrapped Blockstore also implements AllKeysChanWithErr by delegating to the same wrapped store (so enumeration errors are not lost between a cache and the datastore). " +
 			"NOT decided: linearizability itself, LRU eviction, snapshot-consistency of datastore enumeration during Rebuild, stores that are sources and cannot report enumeration errors (Filestore, gateway stores).",
 		Assume:    []string{"sync.RWMutex, atomic.Bool/Pointer, golang-lru and bbloom behave as documented", "the wrapped store's answers are linearizable per key"},
@@ -44,7 +46,138 @@ func runC02(c *an.Ctx) {
 		}
 	}
 	c.Min("O8 batched puts of the cache layers", n, 1)
+	c02Compaction(c)
 	c.Note("advisory (not confirmed dynamically, 200 readers x 60 s against a Rebuild loop did not reproduce): bloomcache.hasCached reads the active flag and then loads the filter pointer as two separate atomic operations; a Rebuild that deactivates and swaps between the two reads lets the fresh, still empty filter answer 'absent'. A re-validation (same pointer and still active after HasTS) would close the window.")
+}
+
+// c02Compaction (O9): in-place compaction keeps every element it wrote. Only
+// the two counting idioms are judged; anything else produces no obligation.
+//
+//	j := 0; for ... { j++; s[j] = x }; s = s[:j+1]     (index advanced before the write)
+//	n := 0; for ... { s[n] = x; n++ }; s = s[:n]       (index advanced after the write)
+func c02Compaction(c *an.Ctx) {
+	// off: v == base + k, syntactically
+	var off func(v ssa.Value) (ssa.Value, int64, bool)
+	off = func(v ssa.Value) (ssa.Value, int64, bool) {
+		if b, ok := v.(*ssa.BinOp); ok && (b.Op == token.ADD || b.Op == token.SUB) {
+			if k, isK := an.ConstOf(b.Y); isK && k.Kind() == constant.Int {
+				n, exact := constant.Int64Val(k)
+				if base, k0, ok := off(b.X); ok && exact {
+					if b.Op == token.SUB {
+						n = -n
+					}
+					return base, k0 + n, true
+				}
+			}
+			return nil, 0, false
+		}
+		if cv, ok := v.(*ssa.Convert); ok {
+			return off(cv.X)
+		}
+		return v, 0, true
+	}
+	sliceField := func(v ssa.Value) (*types.Var, string) {
+		ld, ok := v.(*ssa.UnOp)
+		if !ok || ld.Op != token.MUL {
+			return nil, ""
+		}
+		f, _ := an.FieldOf(ld.X)
+		if f == nil {
+			return nil, ""
+		}
+		return f, an.PathOf(ld.X)
+	}
+	for _, fn := range c.P.PkgFuncs("blockstore") {
+		if fn.Blocks == nil {
+			continue
+		}
+		name := an.FuncName(fn)
+		an.Instrs(fn, func(in ssa.Instruction) {
+			sl, ok := in.(*ssa.Slice)
+			if !ok || sl.Low != nil || sl.High == nil || sl.Max != nil {
+				return
+			}
+			f, path := sliceField(sl.X)
+			if f == nil {
+				return
+			}
+			base, h, ok := off(sl.High)
+			phi, isPhi := base.(*ssa.Phi)
+			if !ok || !isPhi {
+				return
+			}
+			// the phi is a counter: every incoming value (through merges) is the
+			// phi itself, a constant, or phi+1
+			seen := map[ssa.Value]bool{}
+			counter, steps := true, 0
+			var walk func(v ssa.Value)
+			walk = func(v ssa.Value) {
+				if seen[v] {
+					return
+				}
+				seen[v] = true
+				if v == ssa.Value(phi) {
+					return
+				}
+				if _, isK := an.ConstOf(v); isK {
+					return
+				}
+				if q, ok := v.(*ssa.Phi); ok {
+					for _, e := range q.Edges {
+						walk(e)
+					}
+					return
+				}
+				if b, k, ok := off(v); ok && b == ssa.Value(phi) && k == 1 {
+					steps++
+					return
+				}
+				counter = false
+			}
+			for _, e := range phi.Edges {
+				walk(e)
+			}
+			if !counter || steps == 0 {
+				return
+			}
+			// the re-slice comes after the loop
+			if an.Reaches(fn, sl, phi, nil, nil) {
+				return
+			}
+			// element writes of the same slice at phi+w inside the loop
+			w, nW, uniform := int64(0), 0, true
+			an.Instrs(fn, func(in2 ssa.Instruction) {
+				st, ok := in2.(*ssa.Store)
+				if !ok {
+					return
+				}
+				ia, ok := st.Addr.(*ssa.IndexAddr)
+				if !ok {
+					return
+				}
+				f2, path2 := sliceField(ia.X)
+				if f2 != f || path2 != path {
+					return
+				}
+				b, k, ok := off(ia.Index)
+				if !ok || b != ssa.Value(phi) || !an.Reaches(fn, st, phi, nil, nil) {
+					uniform = false
+					return
+				}
+				if nW > 0 && k != w {
+					uniform = false
+				}
+				w = k
+				nW++
+			})
+			if nW == 0 || !uniform || (w != 0 && w != 1) {
+				return
+			}
+			c.Check(h == w, "O9", "R-BOUND", name, "compacted "+types.TypeString(f.Type(), func(p *types.Package) string { return p.Name() })+"[:bound] keeps every written element", sl.Pos(),
+				"the bound of the compacted slice covers the last element written",
+				"a slice compacted in place is cut at a bound that does not match the running index of the elements written: the last kept element is dropped (or a stale one kept): a block of the batch is acknowledged but never handed to the store, and is later reported missing")
+		})
+	}
 }
 
 // ---------------------------------------------------------------------------
@@ -1082,7 +1215,19 @@ func (t *c02tq) batch(fn *ssa.Function, stores []ssa.CallInstruction, locks []c0
 		}
 		an.Instrs(f, func(in ssa.Instruction) {
 			if st, ok := in.(*ssa.Store); ok {
-				if _, isSl := st.Val.(*ssa.Slice); isSl {
+				// the list is replaced by a re-slice of itself, possibly grown again by append
+				isSl := false
+				for _, r := range an.Roots(st.Val, &an.FlowOpts{StopAt: func(v ssa.Value) bool { _, ok := v.(*ssa.Slice); return ok }, Through: func(ac *ssa.Call) ([]ssa.Value, bool) {
+					if _, isApp := an.IsBuiltinCall(ac, "append"); isApp {
+						return []ssa.Value{ac.Call.Args[0]}, true
+					}
+					return nil, false
+				}}) {
+					if _, ok := r.(*ssa.Slice); ok {
+						isSl = true
+					}
+				}
+				if isSl {
 					if fld, base := an.FieldOf(st.Addr); fld != nil && base == ssa.Value(f.Params[0]) {
 						if fld == keysF {
 							truncK = true
